@@ -99,8 +99,12 @@ def bodies():
     for key, fname, sig in BODIES:
         if fname not in cache:
             cache[fname] = strip_comments(src(fname))
-        b = function_body(cache[fname], sig)
-        out.append((key, norm_ws(_strip_debug(b))))
+        b = norm_ws(_strip_debug(function_body(cache[fname], sig)))
+        if key == "subtotal_posts::operator()":
+            # the accumulated value is interpreted (Gen.Regroup.subtotalReadsCompound), not pinned
+            b = re.sub(r"value_t amount\(.*?\); post\.xdata\(\)\.compound_value = amount;",
+                       "value_t amount(<interpreted>); post.xdata().compound_value = amount;", b)
+        out.append((key, b))
     return out
 
 
@@ -218,9 +222,16 @@ def gen_regroup():
     sub_key = norm_ws(m.group(1))
     m2 = re.search(r"values\.insert\s*\(\s*values_pair\s*\(\s*([^,]*?)\s*,", so)
     need(m2 and norm_ws(m2.group(1)) == sub_key, "filters.cc subtotal_posts::operator(): insert key differs from find key")
-    m3 = re.search(r"value_t\s+amount\(\s*([^)]*?)\s*\)\s*;", so)
-    need(m3, "filters.cc subtotal_posts::operator(): `value_t amount(...)` not found")
+    m3 = re.search(r"value_t\s+amount\((.*?)\)\s*;\s*post\.xdata\(\)\.compound_value\s*=\s*amount\s*;", so, flags=re.S)
+    need(m3, "filters.cc subtotal_posts::operator(): `value_t amount(...); post.xdata().compound_value = amount;` not found")
     sub_amount = norm_ws(m3.group(1))
+    if sub_amount == "post.amount":
+        reads_compound = False
+    elif sub_amount == ("post.has_xdata() && post.xdata().has_flags(POST_EXT_COMPOUND) ? "
+                        "post.xdata().compound_value : value_t(post.amount)"):
+        reads_compound = True
+    else:
+        raise ExtractError("filters.cc subtotal_posts::operator(): accumulated value not recognised: " + sub_amount)
     values_map = _typedef(fh, "values_map")
     totals_map = _typedef(fh, "totals_map")
     payee_map = _typedef(fh, "payee_subtotals_map")
@@ -253,8 +264,9 @@ def gen_regroup():
              "def truncEarlyStop : Cmp := .%s" % early, "",
              "/-- subtotal_posts::operator(): the key used for both `values.find` and `values.insert`. -/",
              "def subtotalKey : String := %s" % lean_str(sub_key),
-             "/-- subtotal_posts::operator(): what is accumulated (`value_t amount(...)`). -/",
-             "def subtotalAmount : String := %s" % lean_str(sub_amount),
+             "/-- subtotal_posts::operator(): does `value_t amount(...)` take the compound value of a posting handed down",
+             "    by another subtotalling handler (true), or `post.amount` only (false)? -/",
+             "def subtotalReadsCompound : Bool := %s" % ("true" if reads_compound else "false"),
              "/-- filters.h container types (their iteration order orders the emitted rows). -/",
              "def valuesMapType : String := %s" % lean_str(values_map),
              "def totalsMapType : String := %s" % lean_str(totals_map),
